@@ -1,7 +1,7 @@
 (* C20, part C: global statements (steps of the network). *)
 From Coq Require Import ZArith NArith List Bool Lia ZifyBool ZifyN.
 From RecordUpdate Require Import RecordSet.
-From PSO Require Import Raft.Types Raft.Node Raft.Net Raft.Obs.
+From PSO Require Import Raft.Types Raft.Node Raft.Net.
 From PSO Require Import Raft.ProofsReadonlyFrames Raft.ProofsReadonlyA Raft.ProofsReadonlyB.
 From PSO Require Import Raft.ProofsFallbackA Raft.ProofsFallbackB.
 Import ListNotations.
@@ -172,9 +172,9 @@ Definition cut_quiet (L : nid) (g : gstate) (ev : event) (r : option (nid * S)) 
     (forall oth now rnd sv, ev <> ERestart L oth now rnd sv) /\
     Forall nomem (outs s).
 
-Lemma run_trace_app : forall c evs1 evs2 g g',
-  run_trace c g (evs1 ++ evs2) = Some g' <->
-  exists g1, run_trace c g evs1 = Some g1 /\ run_trace c g1 evs2 = Some g'.
+Lemma run_app : forall c evs1 evs2 g g',
+  run c g (evs1 ++ evs2) = Some g' <->
+  exists g1, run c g evs1 = Some g1 /\ run c g1 evs2 = Some g'.
 Proof.
   intros c evs1; induction evs1 as [|ev evs1 IH]; intros evs2 g g'; cbn.
   - split; [intros H; eauto | intros (g1 & H1 & H2); inversion H1; subst; exact H2].
@@ -183,7 +183,7 @@ Proof.
 Qed.
 
 Lemma steps_sat_app : forall P c evs1 evs2 g g1,
-  run_trace c g evs1 = Some g1 ->
+  run c g evs1 = Some g1 ->
   (steps_sat P c g (evs1 ++ evs2) <-> steps_sat P c g evs1 /\ steps_sat P c g1 evs2).
 Proof.
   intros P c evs1; induction evs1 as [|ev evs1 IH]; intros evs2 g g1 H; cbn in *.
@@ -234,7 +234,7 @@ Qed.
 Lemma cut_run : forall c L n0 bnd evs g g' n,
   conf_period_ok c -> others n0 <> [] -> Forall (fun x => x < RO_BASE) (others n0) -> bound_ok bnd n0 ->
   aget L (nodes g) = Some n -> cut_inv n0 n -> commit_ok bnd n ->
-  steps_sat (cut_quiet L) c g evs -> run_trace c g evs = Some g' ->
+  steps_sat (cut_quiet L) c g evs -> run c g evs = Some g' ->
   exists n', aget L (nodes g') = Some n' /\ cut_inv n0 n' /\ commit_ok bnd n' /\
              (role n <> LEADER -> role n' <> LEADER).
 Proof.
@@ -255,15 +255,15 @@ Theorem C20_bound_thm : forall c g0 L n0 t0 evs1 now rnd bud ord sl evs2 g,
   (forall x v, In x (others n0) -> aget x (last_resp n0) = Some v -> (v <= t0)%Z) ->
   (t0 + fallback c < now)%Z ->
   steps_sat (cut_quiet L) c g0 (evs1 ++ ETick L now rnd bud ord sl :: evs2) ->
-  run_trace c g0 (evs1 ++ ETick L now rnd bud ord sl :: evs2) = Some g ->
+  run c g0 (evs1 ++ ETick L now rnd bud ord sl :: evs2) = Some g ->
   exists n, aget L (nodes g) = Some n /\ role n <> LEADER.
 Proof.
   intros c g0 L n0 t0 evs1 now rnd bud ord sl evs2 g Hp Hx Hr Hn Hne Hro Hmm Hrm Hold Hnow HS HR.
-  apply run_trace_app in HR as (g1 & R1 & R2).
+  apply run_app in HR as (g1 & R1 & R2).
   destruct (proj1 (steps_sat_app (cut_quiet L) c evs1 (ETick L now rnd bud ord sl :: evs2) g0 g1 R1) HS) as (HS1 & HS2).
   assert (cut_inv n0 n0) as HI0 by (split; [exact Hn | split; [reflexivity | auto]]).
   destruct (cut_run c L n0 None evs1 g0 g1 n0 Hp Hne Hro I Hx HI0 I HS1 R1) as (n1 & X1 & I1 & _ & _).
-  cbn [run_trace steps_sat] in R2, HS2. destruct (gstep c g1 (ETick L now rnd bud ord sl)) as [[g2 r]|] eqn:E; [|discriminate].
+  cbn [run steps_sat] in R2, HS2. destruct (gstep c g1 (ETick L now rnd bud ord sl)) as [[g2 r]|] eqn:E; [|discriminate].
   destruct HS2 as (Q2 & HS2).
   destruct (cut_gstep c L n0 None _ _ _ _ _ Hp Hne Hro I E Q2 X1 I1 I) as (n2 & X2 & I2 & _ & RR & ET).
   assert (role n2 <> LEADER) as Hn2.
@@ -288,7 +288,7 @@ Theorem C20_no_commit_when_cut_thm : forall c g0 L n0 K evs g,
   aget L (nodes g0) = Some n0 -> role n0 = LEADER -> need_load n0 = false ->
   others n0 <> [] -> Forall (fun x => x < RO_BASE) (others n0) ->
   commit n0 <= K -> (forall j, K < j -> majority (match_count j n0) n0 = false) ->
-  steps_sat (cut_quiet L) c g0 evs -> run_trace c g0 evs = Some g ->
+  steps_sat (cut_quiet L) c g0 evs -> run c g0 evs = Some g ->
   exists n, aget L (nodes g) = Some n /\ commit n <= K /\
             (role n = LEADER -> forall x, In x (others n0) -> aget x (match_idx n) = aget x (match_idx n0)).
 Proof.
